@@ -252,6 +252,30 @@ static void sig_tests(TMCG_SecretKey &sec, TMCG_PublicKey &pub, TMCG_SecretKey &
 					else if (!kid_abbrev(k2, pub.sig)) propfail("verify-keyid", "signature with a foreign key id accepted: key=" + tag + " sig=" + s2);
 				}
 			}
+			// the three fields of the padded value (w, r*, gamma) altered one at a time, square root recomputed with the secret key
+			{ size_t mn = mpz_sizeinbase(sec.m, 2) / 8, mdl = tmcg_mpz_shash_len();
+			  std::vector<unsigned char> yy(mn, 0); size_t c = 1;
+			  if (mpz_sizeinbase(foo.v, 2) <= 8 * mn && mpz_sgn(foo.v)) {
+			    mpz_export(yy.data(), &c, -1, mn, 1, 0, foo.v);
+			    size_t lo[3] = { 0, mdl, mdl + TMCG_PRAB_K0 }, hi[3] = { mdl, mdl + TMCG_PRAB_K0, mn };
+			    static const char *fn[3] = { "w", "r", "gamma" };
+			    for (int fld = 0; fld < 3; fld++) {
+			      bool done = false;
+			      for (int tr = 0; tr < 40 && !done; tr++) {
+			        std::vector<unsigned char> y2 = yy;
+			        size_t pos = tr == 0 ? hi[fld] - 1 : lo[fld] + gen().below(hi[fld] - lo[fld]);
+			        y2[pos] ^= (unsigned char)(1u << gen().below(8));
+			        Z f2, q0, q1, q2, q3;
+			        mpz_import(f2.v, 1, -1, mn, 1, 0, y2.data());
+			        if (!tmcg_mpz_qrmn_p(f2.v, sec.p, sec.q)) continue;
+			        tmcg_mpz_sqrtmn_fast_all(q0.v, q1.v, q2.v, q3.v, f2.v, sec.p, sec.q, sec.m, sec.gcdext_up, sec.gcdext_vq, sec.pa1d4, sec.qa1d4);
+			        std::string s5 = "sig|" + kid + "|" + S(q0.v) + "|";
+			        cnt.mutants++; done = true;
+			        if (do_verify(pub, data, s5)) propfail(std::string("verify-field/") + fn[fld], "signature with an altered padded value accepted (byte " + std::to_string(pos) + "): key=" + tag + " data=" + xb(data) + " sig=" + s5);
+			      }
+			    }
+			  }
+			}
 			// different data
 			std::vector<std::string> od;
 			od.push_back(data + "x"); od.push_back(data + std::string(1, '\0'));
@@ -266,7 +290,7 @@ static void sig_tests(TMCG_SecretKey &sec, TMCG_PublicKey &pub, TMCG_SecretKey &
 			{ std::string s2 = "sig|" + other.keyid() + "|" + val + "|";
 			  if (do_verify(other, data, s2)) propfail("verify-otherkey", "signature accepted under a different key (key id patched): sig=" + s2); }
 			// stale export buffer: a value whose square is zero makes mpz_export write nothing; back-to-back raw calls
-			{ std::string zs = "sig|" + kid + "|0|", ms = "sig|" + kid + "|" + S(pub.m) + "|";
+			{ std::string zs = "sig|" + kid + "|" + std::string(S(v.v).size(), '0') + "|", ms = "sig|" + kid + "|" + S(pub.m) + "|";   // same text length: same allocation pattern
 			  bool a = pub.verify(data, sg), z = pub.verify(data, zs), a2 = pub.verify(data, sg), zm = pub.verify(data, ms);
 			  cnt.verify += 4;
 			  if (a && a2 && (z || zm)) propfail("verify-zero-stale-buffer", "signature value with zero square (0 or m) accepted right after a valid verification of the same data: key=" + tag + " bits=" + std::to_string(mpz_sizeinbase(pub.m, 2)) + " data=" + xb(data) + " valid=" + sg + " forged=" + (z ? zs : ms));
@@ -394,6 +418,18 @@ static void key_tests(TMCG_SecretKey &sec, TMCG_PublicKey &pub, bool nizk, bool 
 		if (!do_import_pub(k2, m.second)) continue;
 		if (!mpz_sgn(k2.m)) continue;          // jacobi / probab_prime on zero: outside what check() is called on (import refuses nothing here)
 		if (do_check(k2)) propfail("check-mutant/" + m.first, "altered key accepted by check(): key=" + tag + " text=" + m.second.substr(0, 300));
+	}
+	// non-residue replaced by the key owner (self-signature recomputed): Jacobi symbol -1, and a plain square
+	for (int which = 0; which < 2; which++) {
+		TMCG_SecretKey s2(sec);
+		if (which == 0) { mpz_set_ui(s2.y, 2); while (mpz_jacobi(s2.y, s2.m) != -1) mpz_add_ui(s2.y, s2.y, 1); }
+		else mpz_set_ui(s2.y, 4);
+		if (!mpz_cmp(s2.y, sec.y)) continue;
+		resign(s2);
+		TMCG_PublicKey p2(s2); cnt.mutants++;
+		bool ok = do_check(p2, !nizk || which == 0);
+		if (which == 0 && ok) propfail("check-y-jacobi", "key whose y has Jacobi symbol -1 (self-signature recomputed) accepted: key=" + tag + " y=" + S(s2.y));
+		if (which == 1 && nizk && ok) propfail("check-y-square", "NIZK key whose y is a square (self-signature recomputed) accepted: key=" + tag);
 	}
 	if (!nizk) return;
 	// validity proof altered by the key owner (self-signature recomputed): the stage checks themselves must refuse
